@@ -9,18 +9,42 @@ TB_COMMON = [
 
 PROPS = {}
 
+def enum_rc(tier):
+    """every op sequence of length 2 (quick) / 3 (thorough) over {Inc, RollingSumAt, GetBuckets, Reset} x 10 boundary
+    timestamps, for 1, 2 and 3 buckets of width 10"""
+    import itertools
+    ts = [-1, 0, 9, 10, 19, 20, 29, 30, 40, 55]
+    alphabet = ["%s %d" % (o, t) for o in ("inc", "sum", "bk", "reset") for t in ts]
+    L = 2 if tier == "quick" else 3
+    for n in (1, 2, 3):
+        for seq in itertools.product(alphabet, repeat=L):
+            yield "rc n=%d w=10" % n, list(seq) + ["bk 55", "total"]
+
+def enum_tc(tier):
+    """every op sequence of length 3 (quick) / 4 (thorough) over {SleepStart, Check} x 6 timestamps + 3 callback
+    firings, for sleep 10 and budgets 0, 1, 2"""
+    import itertools
+    ts = [0, 5, 10, 11, 20, 25]
+    alphabet = ["%s %d" % (o, t) for o in ("start", "check") for t in ts] + ["fire 0", "fire 1", "fire 2"]
+    L = 3 if tier == "quick" else 4
+    for allow in (0, 1, 2):
+        for seq in itertools.product(alphabet, repeat=L):
+            yield "tc", ["sleep 10", "allow %d" % allow] + list(seq) + ["check 40", "dump"]
+
 PROPS["C13"] = {
-    "components": [Seq("rc", 2000, 100000)],
+    "components": [Seq("rc", 2000, 100000, enum=enum_rc)],
     "rule": "rc: random op sequences (Inc/RollingSumAt/GetBuckets/Reset/TotalSum/JSON) over boundary-directed timestamps; a case is "
-            "non-trivial when it rolls the window forward at least once AND presents at least one backwards/stale/pre-start time; distinct by FNV hash of its text",
+            "non-trivial when it rolls the window forward at least once AND presents at least one backwards/stale/pre-start time; distinct by FNV hash of its text; "
+            "plus a COMPLETE enumeration of a small scope on every run: all op sequences of length 2 (quick) / 3 (thorough) over 4 operations x 10 boundary timestamps for 1-3 buckets",
     "trusted_base": TB_COMMON + ["modelled not verified: sequential semantics of sync/atomic (CAS always succeeds), encoding/json round-trip of the counter struct, time.Time arithmetic without saturation"],
     "assumptions": ["NumBuckets >= 0 and BucketWidth > 0 (constructor precondition; width 0 divides by zero in Go)"],
 }
 
 PROPS["C16"] = {
-    "components": [Seq("tc", 2000, 100000)],
+    "components": [Seq("tc", 2000, 100000, enum=enum_tc)],
     "rule": "tc: random op sequences (SleepStart/Check/SetSleepDuration/SetEventCountToAllow/callback firings incl. stale and repeated/dump) with "
-            "timestamps around nextOpenTime, behind and ahead; non-trivial = at least one callback firing AND one check at the boundary or with an older timestamp; distinct by FNV hash",
+            "timestamps around nextOpenTime, behind and ahead; non-trivial = at least one callback firing AND one check at the boundary or with an older timestamp; distinct by FNV hash; "
+            "plus a COMPLETE enumeration of a small scope on every run: all op sequences of length 3 (quick) / 4 (thorough) over SleepStart/Check x 6 timestamps + 3 callback firings for budgets 0-2",
     "trusted_base": TB_COMMON + ["modelled not verified: sync.RWMutex mutual exclusion (sequential part), timer callbacks as explicit environment steps (injected TimeAfterFunc)"],
     "assumptions": ["timestamps stay far from the zero time.Time and from int64 overflow"],
 }
